@@ -261,7 +261,7 @@ theorem InvH.finish {k : Cfg} {s : St} {id : Nat} {el : Int} {e : Nat} (h : InvH
   have h0 : InvH { s with size := s.size - el, inflight := s.inflight.filter (fun x => x.1 != id),
                           finished := s.finished ++ [id], outcomes := s.outcomes ++ [(id, e)] } :=
     h.of_ps rfl rfl rfl rfl (fun q => Or.inl rfl)
-  have h1 := h0.condSignal
+  have h1 := h0.condBroadcast
   simp only []
   split
   · exact h1.of_ps rfl rfl rfl rfl (fun q => Or.inl rfl)
@@ -357,7 +357,11 @@ theorem InvH.step {k : Cfg} {s s' : St} {l : Label} (h : InvH s) (hf : fire k s 
     split at hf
     · cases hf; exact h.finish
     · cases hf
-  | shutdown => simp only [fire] at hf; cases hf; exact h.of_ps rfl rfl rfl rfl (fun q => Or.inl rfl)
+  | shutdown =>
+    simp only [fire] at hf; cases hf
+    have h0 : InvH { s with stopped := true, cwait := [], cwoken := s.cwoken ++ s.cwait } :=
+      h.of_ps rfl rfl rfl rfl (fun q => Or.inl rfl)
+    exact h0.condBroadcast
 
 theorem InvH.init : InvH {} := ⟨rfl, by simp, by simp, by simp, by simp⟩
 
@@ -478,6 +482,25 @@ theorem InvC.condSignal {k : Cfg} {s : St} (h : InvC k s) : InvC k (condSignal s
     · subst hq; simpa using h.elOk q
     · rw [upd_other _ _ _ _ hq]; exact h.elOk q
 
+theorem InvC.condBroadcast {k : Cfg} {s : St} (h : InvC k s) : InvC k (condBroadcast s) := by
+  unfold OtelVerif.C02.condBroadcast
+  refine ⟨?_, by simp, ?_, ?_, ?_⟩ <;> intro q <;> dsimp only <;> by_cases hq : q ∈ s.waiters
+  · simp [hq]
+  · simp only [hq, if_false]
+    have := h.wIff q
+    simp [hq] at this ⊢
+    exact this
+  · intro _
+    simp only [hq, if_true]
+    rcases ((h.wIff q).mp hq).1 with a | a
+    · exact Or.inl a
+    · exact Or.inr (Or.inr a)
+  · simp only [hq, if_false]; exact h.sigPh q
+  · simp [hq]
+  · simp only [hq, if_false]; exact h.tokSig q
+  · simp only [hq, if_true]; exact h.elOk q
+  · simp only [hq, if_false]; exact h.elOk q
+
 /-- ctx branch of `cond.Wait` after re-locking, followed by the error return -/
 theorem InvC.relockCtx {k : Cfg} {s : St} {p : Nat} {r : Res} (h : InvC k s) (hp : (s.ps p).ph = .wokenCtx) :
     InvC k (refuse (ctxCleanup s p) p r) := by
@@ -549,7 +572,10 @@ theorem InvC.tryAdd {k : Cfg} {s : St} {p : Nat} {el : Int} (h : InvC k s) (hw :
   unfold OtelVerif.C02.tryAdd
   split
   · split
-    · rename_i hb; exact h.register hw ⟨h0, h1, hb⟩
+    · rename_i hb
+      split
+      · exact h.retire (x := { s.ps p with ph := .done .stopped, sig := false }) rfl rfl hw (by simp [Ph.inCond]) rfl
+      · exact h.register hw ⟨h0, h1, hb⟩
     · exact h.retire (x := { s.ps p with ph := .done .full, sig := false }) rfl rfl hw (by simp [Ph.inCond]) rfl
   · split
     · exact h.retire (x := { s.ps p with ph := .done .stopped, sig := false }) rfl rfl hw (by simp [Ph.inCond]) rfl
@@ -560,7 +586,7 @@ theorem InvC.finish {k : Cfg} {s : St} {id : Nat} {el : Int} {e : Nat} (h : InvC
   unfold OtelVerif.C02.finish
   have h0 : InvC k { s with size := s.size - el, inflight := s.inflight.filter (fun x => x.1 != id),
                             finished := s.finished ++ [id], outcomes := s.outcomes ++ [(id, e)] } := h.congr rfl rfl
-  have h1 := h0.condSignal
+  have h1 := h0.condBroadcast
   simp only []
   split
   · exact h1.congr rfl rfl
@@ -674,7 +700,10 @@ theorem InvC.step {k : Cfg} {s s' : St} {l : Label} (h : InvC k s) (hf : fire k 
     split at hf
     · cases hf; exact h.finish
     · cases hf
-  | shutdown => simp only [fire] at hf; cases hf; exact h.congr rfl rfl
+  | shutdown =>
+    simp only [fire] at hf; cases hf
+    have h0 : InvC k { s with stopped := true, cwait := [], cwoken := s.cwoken ++ s.cwait } := h.congr rfl rfl
+    exact h0.condBroadcast
 
 end OtelVerif.C02
 
@@ -754,7 +783,9 @@ theorem InvZ.tryAdd {k : Cfg} {s : St} {p : Nat} {el : Int} (h : InvZ k s) (h0 :
   unfold OtelVerif.C02.tryAdd
   split
   · split
-    · exact h.congr rfl rfl rfl rfl rfl
+    · split
+      · exact h.congr rfl rfl rfl rfl rfl
+      · exact h.congr rfl rfl rfl rfl rfl
     · exact h.congr rfl rfl rfl rfl rfl
   · rename_i hle
     split
@@ -814,7 +845,7 @@ theorem InvZ.finish {k : Cfg} {s : St} {id : Nat} {el : Int} {e : Nat} (h : InvZ
     · simp only [List.append_assoc, List.singleton_append]
       exact h.hperm.trans (List.Perm.append_left _ r2)
   unfold OtelVerif.C02.finish
-  obtain ⟨c1, c2, c3, _, _, _, _, _, c9, c10, _⟩ := condSignal_fields
+  obtain ⟨c1, c2, c3, _, _, _, _, _, c9, c10, _⟩ := condBroadcast_fields
     { s with size := s.size - el, inflight := s.inflight.filter (fun x => x.1 != id),
              finished := s.finished ++ [id], outcomes := s.outcomes ++ [(id, e)] }
   have h1 := h0.congr c1 c2 c3 c9 c10
@@ -941,7 +972,9 @@ theorem tryAdd_size_pos {k : Cfg} {s : St} {p : Nat} {el : Int} (h0 : 0 < el) (h
   unfold tryAdd
   split
   · split
-    · left; simp only [register]; omega
+    · split
+      · rename_i hst; right; simpa [refuse] using hst
+      · left; simp only [register]; omega
     · left; simp only [refuse]; omega
   · split
     · rename_i hst; right; simpa [refuse] using hst
@@ -1086,18 +1119,13 @@ theorem InvW.step {k : Cfg} {s s' : St} {l : Label} (h : InvW s) (hC : InvC k s)
     split at hf
     · rename_i el _; cases hf
       unfold finish
-      have hcs := condSignal_W { s with size := s.size - el, inflight := s.inflight.filter (fun x => x.1 != id),
-                                        finished := s.finished ++ [id], outcomes := s.outcomes ++ [(id, e)] }
       simp only []
+      -- `Broadcast`: nobody stays registered
       split
-      · intro hne
-        obtain ⟨w, _, hw2⟩ := hcs hne
-        exact Or.inr (Or.inl ⟨w, hw2⟩)
-      · intro hne
-        obtain ⟨w, _, hw2⟩ := hcs hne
-        exact Or.inr (Or.inl ⟨w, hw2⟩)
+      · intro hne; exact absurd rfl hne
+      · intro hne; exact absurd rfl hne
     · cases hf
-  | shutdown => simp only [fire] at hf; cases hf; exact fun _ => Or.inr (Or.inr rfl)
+  | shutdown => simp only [fire] at hf; cases hf; exact fun hne => absurd rfl hne
 
 theorem InvW.init : InvW {} := by intro h; simp at h
 
@@ -1154,11 +1182,16 @@ theorem InvR.condSignal {s : St} (h : InvR s) : InvR (condSignal s) := by
   obtain ⟨_, _, _, _, _, c6, _, _, _, c10, c11⟩ := condSignal_fields s
   exact h.of_ps c6 c11 c10 (fun q e a => by rwa [condSignal_ph] at a)
 
+theorem InvR.condBroadcast {s : St} (h : InvR s) : InvR (condBroadcast s) :=
+  h.of_ps rfl rfl rfl (fun q e a => by rwa [condBroadcast_ph] at a)
+
 theorem InvR.tryAdd {k : Cfg} {s : St} {p : Nat} {el : Int} (h : InvR s) : InvR (tryAdd k s p el) := by
   unfold OtelVerif.C02.tryAdd
   split
   · split
-    · exact h.upd (x := { s.ps p with ph := .sel, el := el, sig := false }) rfl rfl rfl rfl (by simp)
+    · split
+      · exact h.upd (x := { s.ps p with ph := .done .stopped, sig := false }) rfl rfl rfl rfl (by simp)
+      · exact h.upd (x := { s.ps p with ph := .sel, el := el, sig := false }) rfl rfl rfl rfl (by simp)
     · exact h.upd (x := { s.ps p with ph := .done .full, sig := false }) rfl rfl rfl rfl (by simp)
   · split
     · exact h.upd (x := { s.ps p with ph := .done .stopped, sig := false }) rfl rfl rfl rfl (by simp)
@@ -1264,7 +1297,7 @@ theorem InvR.step {k : Cfg} {s s' : St} {l : Label} (h : InvR s) (hf : fire k s 
                               finished := s.finished ++ [id], outcomes := s.outcomes ++ [(id, e)] } :=
         ⟨fun x hx => List.mem_append_left _ (h.resOut x hx), by simp [h.outFin],
          fun p e' a => List.mem_append_left _ (h.routed p e' a)⟩
-      have h1 := h0.condSignal
+      have h1 := h0.condBroadcast
       simp only []
       split
       · refine ⟨?_, h1.outFin, h1.routed⟩
@@ -1273,13 +1306,16 @@ theorem InvR.step {k : Cfg} {s s' : St} {l : Label} (h : InvR s) (hf : fire k s 
         rcases hx with hx | hx
         · exact h1.resOut x hx
         · subst hx
-          obtain ⟨_, _, _, _, _, _, _, _, _, _, c11⟩ := condSignal_fields
+          obtain ⟨_, _, _, _, _, _, _, _, _, _, c11⟩ := condBroadcast_fields
             { s with size := s.size - el, inflight := s.inflight.filter (fun x => x.1 != id),
                      finished := s.finished ++ [id], outcomes := s.outcomes ++ [(id, e)] }
           rw [c11]; simp
       · exact h1
     · cases hf
-  | shutdown => simp only [fire] at hf; cases hf; exact h.of_ps rfl rfl rfl (fun _ _ a => a)
+  | shutdown =>
+    simp only [fire] at hf; cases hf
+    have h0 : InvR { s with stopped := true, cwait := [], cwoken := s.cwoken ++ s.cwait } := h.of_ps rfl rfl rfl (fun _ _ a => a)
+    exact h0.condBroadcast
 
 theorem InvR.init : InvR {} := ⟨by simp, by simp, by simp⟩
 
